@@ -24,7 +24,11 @@ import (
 func harness(sc c18ops.Scenario, bound int) *explore.Harness {
 	// sequential reference, computed outside any execution (instrumentation points are no-ops there)
 	want := map[string]string{}
-	for ti, th := range sc.Threads {
+	ref := sc.Threads
+	if sc.Fresh != nil {
+		ref = sc.Fresh() // the reference runs on instances of its own
+	}
+	for ti, th := range ref {
 		for _, op := range th {
 			want[fmt.Sprintf("%d/%s", ti, op.Name)] = op.Run()
 		}
@@ -42,8 +46,12 @@ func harness(sc c18ops.Scenario, bound int) *explore.Harness {
 				}
 			}
 		})
-		running := len(sc.Threads)
-		for ti, th := range sc.Threads {
+		threads := sc.Threads
+		if sc.Fresh != nil {
+			sched.Quiet(func() { threads = sc.Fresh() }) // new instances: their first use is the concurrent one
+		}
+		running := len(threads)
+		for ti, th := range threads {
 			ti, th := ti, th
 			sched.GoNamed(fmt.Sprintf("user%d", ti), func() {
 				defer func() { running-- }()
